@@ -30,7 +30,8 @@ ASSUMPTIONS = [
 FLOORS = {'aggregate_evaluations': 3000, 'two_dimensional': 200,
           'split_relations': 100, 'permutation_relations': 100,
           'order_relations': 100, 'sumproduct_cases': 100,
-          'same_cells_twice': 300, 'library_calls_monitored': 100}
+          'same_cells_twice': 300, 'library_calls_monitored': 100,
+          'absolute_rectangles': 100, 'big_rectangles': 6}
 ANCHOR_FUNCS = {
     'xlcalculator/xlfunctions/math.py': ['SUM', 'SUMPRODUCT'],
     'xlcalculator/xlfunctions/statistics.py': ['AVERAGE', 'MIN', 'MAX',
@@ -55,8 +56,11 @@ def numbers(rng, k):
     return [rng.randint(-(2 ** 15), 2 ** 15) / 8 for _ in range(k)]
 
 
+RECT_FLAGS = [F4]      # how the current rectangle's references are spelt
+
+
 def rect_formula(f, c1, r1, c2, r2):
-    return ('call', f, [('rng', None, c1, r1, c2, r2, F4)])
+    return ('call', f, [('rng', None, c1, r1, c2, r2, RECT_FLAGS[0])])
 
 
 class Batch:
@@ -146,9 +150,16 @@ def run(ctx):
                        ('text' if isinstance(v, str) else 'num'))
         return ''.join(sorted(k[0] for k in ks))
 
-    def add_rect_cases(matrix, tag):
+    def add_rect_cases(matrix, tag, funcs=AGGS):
         rows, cols = len(matrix), len(matrix[0])
         c1, r1, c2, r2 = B.place(matrix)
+        # one spelling ($ flags) for every reference to this rectangle and
+        # its parts: the workbook then holds the range in that spelling only
+        if rng.random() < 0.35:
+            RECT_FLAGS[0] = tuple(rng.random() < 0.6 for _ in range(4))
+            ctx.event('absolute_rectangles')
+        else:
+            RECT_FLAGS[0] = F4
         has_num = any(isinstance(v, (int, float)) for row in matrix
                       for v in row)
         kinds = kinds_of(matrix)
@@ -158,7 +169,7 @@ def run(ctx):
             'n' if isinstance(v, (int, float)) else ('t' if v else 'b')
             for v in row) for row in matrix))
         flat_sorted = tuple(sorted(repr(v) for row in matrix for v in row))
-        for f in AGGS:
+        for f in funcs:
             if f in NEEDS_NUMBER and not has_num:
                 continue
             nt = (f,) + nt_base if (len(kinds) >= 2 or two_d) else None
@@ -169,7 +180,8 @@ def run(ctx):
                    if f != 'SUMPRODUCT' or True else None,
                    'label': 'arrangement'})
         # SUM additivity over every row split and column split
-        for k in range(1, rows):
+        for k in (range(1, rows) if rows <= 8 else
+                  rng.sample(range(1, rows), 3)):
             key = ('split', id(matrix), 'row', k)
             B.add(rect_formula('SUM', c1, r1, c2, r2),
                   {'func': 'SUM', 'cells': cells, 'kinds': kinds,
@@ -179,7 +191,8 @@ def run(ctx):
                   {'func': 'SUM', 'cells': cells, 'kinds': kinds,
                    'two_d': two_d, 'rel': key, 'label': 'parts',
                    'nt': ('split-row', k) + nt_base})
-        for k in range(1, cols):
+        for k in (range(1, cols) if cols <= 8 else
+                  rng.sample(range(1, cols), 3)):
             key = ('split', id(matrix), 'col', k)
             B.add(rect_formula('SUM', c1, r1, c2, r2),
                   {'func': 'SUM', 'cells': cells, 'kinds': kinds,
@@ -209,7 +222,7 @@ def run(ctx):
                   {'func': 'SUM', 'cells': cells, 'kinds': kinds,
                    'two_d': two_d, 'nt': ('whole-minus-cols', k) + nt_base})
             ctx.event('same_cells_twice')
-        usable = [f for f in AGGS if f != 'SUMPRODUCT' and
+        usable = [f for f in funcs if f != 'SUMPRODUCT' and
                   (has_num or f not in NEEDS_NUMBER)]
         for _p in range(2):
             f, g = rng.choice(usable), rng.choice(usable)
@@ -267,6 +280,21 @@ def run(ctx):
         if len(B.items) > 250:
             B.flush(judge)
     B.flush(judge)
+
+    # ---- rectangles with more than 255 cells (SUM, AVERAGE, MIN, MAX; the
+    # counting functions have an argument limit the statement is silent on)
+    big = [(16, 16), (2, 128), (128, 2), (300, 1), (1, 260), (20, 20)]
+    for bi, (rows, cols) in enumerate(big):
+        if bi % ctx.nshards != ctx.shard % len(big) and not thorough:
+            continue
+        flat = [v if rng.random() < 0.9 else None
+                for v in numbers(rng, rows * cols)]
+        flat[0] = flat[0] if flat[0] is not None else 1.5
+        m = [flat[r * cols:(r + 1) * cols] for r in range(rows)]
+        add_rect_cases(m, 'big', funcs=['SUM', 'AVERAGE', 'MIN', 'MAX'])
+        ctx.event('big_rectangles')
+        B.flush(judge)
+    RECT_FLAGS[0] = F4
 
     # ---- several arguments: ranges + numeric scalars, every order -----------
     for _ in range((3000 if thorough else 200) // ctx.nshards):
